@@ -3,7 +3,7 @@
    binary64 (FloatKit.v); S0 V2 S1 S2 MX = the exact integer sums of Model.v. *)
 From Coq Require Import ZArith Reals Floats List QArith Permutation.
 From Flocq Require Import Core.
-From Dastard Require Import Common.ZX C13.Model C13.ModelFloat C13.Spec C13.FloatKit C13.Proofs C13.ProofsQ C13.Bridge C13.Meets C13.Rms C13.Tree C13.Dyadic C13.DyadicQ.
+From Dastard Require Import Common.ZX C13.Model C13.ModelFloat C13.Spec C13.FloatKit C13.Proofs C13.ProofsQ C13.Bridge C13.Meets C13.Rms C13.Tree C13.Dyadic C13.DyadicQ C13.StdDev.
 
 (* No rounding occurs in the two accumulation loops of AnalyzeData: the float accumulators hold the
    exact integer (half-integer for the slope accumulator) sums. *)
@@ -167,3 +167,46 @@ Theorem dyadic_references_are_definitions :
      (var_x (resid_x B c d) == var_def (resid_def (map (map dy2Q) B) (map dy2Q c) (map QZ d)))%Q).
 Proof. exact dyadic_refs_are_definitions. Qed.
 Print Assumptions dyadic_references_are_definitions.
+
+(* The residual standard deviation, real-number level (u = uR = 2^-53, eta = etaR = 2^-1074,
+   pw k = (1+u)^k, Fmt = is a binary64 number, RN = round to nearest even).
+   fl_stddev is dastard's stdDev (process_data.go) operation for operation: s += v sequentially,
+   mean = s/n, x = v - mean, s2 += x*x sequentially, sqrt(s2/n); sigma is the exact population standard
+   deviation.
+
+   stddev_two_pass_bound: for ANY non-empty vector of binary64 numbers the float result is within
+   dmb + ((1+u)^(n+4) - 1)(sigma + dmb) + (1+u) sqrt(2 eta) of sigma, dmb = ((1+u)^n - 1) mean|l| + eta/2. *)
+Theorem stddev_two_pass_bound :
+  forall l : list R, l <> nil -> Forall Fmt l -> (INR (length l + 4) * uR <= / 2)%R ->
+    let dmb := ((pw (length l) - 1) * (Rasum l / len l) + etaR / 2)%R in
+    (Rabs (fl_stddev l - sigma l)
+     <= dmb + (pw (length l + 4) - 1) * (sigma l + dmb) + (1 + uR) * R_sqrt.sqrt (2 * etaR))%R.
+Proof. exact StdDev.stddev_two_pass_bound. Qed.
+Print Assumptions stddev_two_pass_bound.
+
+(* The standard deviation is 1-Lipschitz for the max norm: entries within e => sigmas within e. *)
+Theorem sigma_is_lipschitz :
+  forall (e : R) (a b : list R), (0 <= e)%R -> a <> nil ->
+    Forall2 (fun x y => (Rabs (x - y) <= e)%R) a b -> (Rabs (sigma a - sigma b) <= e)%R.
+Proof. exact sigma_lipschitz. Qed.
+Print Assumptions sigma_is_lipschitz.
+
+(* residual_stddev_any_tree: the whole residual computation. rows = the samples d_i (binary64) paired with
+   ANY summation tree t_i whose leaves are the products B_ij c_j of row i; the implementation computes
+   rt_i = RN(d_i - evalf t_i) and s = fl_stddev rt; the exact residuals are r_i = d_i - exact t_i.  If e
+   bounds the entry errors  tree_tol t_i + u (|r_i| + tree_tol t_i)  (tree_tol = the bound of
+   projection_tree_bound), then |s - sigma r| <= E(e) below.  This is the derivation behind the checker's
+   residual tolerance (design.d/C13.md), now a theorem over the reals. *)
+Theorem residual_stddev_any_tree :
+  forall (rows : list (R * tree)) (e : R),
+    rows <> nil -> (0 <= e)%R ->
+    Forall (fun dt => Fmt (fst dt) /\ (INR (leaves (snd dt)) * uR <= / 2)%R /\
+                      (tree_tol (snd dt) + uR * (Rabs (fst dt - exact (snd dt)) + tree_tol (snd dt)) <= e)%R) rows ->
+    (INR (length rows + 4) * uR <= / 2)%R ->
+    let rt := map (fun dt => RN (fst dt - evalf (snd dt))) rows in
+    let r := map (fun dt => (fst dt - exact (snd dt))%R) rows in
+    let dm := ((pw (length rows) - 1) * (Rasum r / len r + e) + etaR / 2)%R in
+    (Rabs (fl_stddev rt - sigma r)
+     <= e + dm + (pw (length rows + 4) - 1) * (sigma r + e + dm) + (1 + uR) * R_sqrt.sqrt (2 * etaR))%R.
+Proof. exact residual_any_tree. Qed.
+Print Assumptions residual_stddev_any_tree.
